@@ -56,8 +56,10 @@ impl Decoder for ServerCodec {
         }
         match self.state {
             CodecState::Header => {
-                if src.remaining() < 60 || src.remaining() < 59 + address::try_decode_at(src, 59)? {
-                    return Ok(None);
+                // 56 hex digits, CRLF, command, address, CRLF
+                match address::try_decode_at(src, 59)? {
+                    Some(addr_len) if src.remaining() >= 59 + addr_len + trojan::CR_LF.len() => {}
+                    _ => return Ok(None),
                 }
                 if src[56] != b'\r' {
                     bail!("not trojan protocol");
